@@ -59,6 +59,9 @@ func main() {
 		for _, n := range funcInventory(pkgs) {
 			fmt.Println(n)
 		}
+		for _, d := range moduleDecls(pkgs) {
+			fmt.Println("sig\t" + d.fn.FullName() + "\t" + funcSig(d.fn))
+		}
 		for _, n := range closureInventory(pkgs) {
 			fmt.Println("closure\t" + n)
 		}
